@@ -163,7 +163,7 @@ CLAIMED = {
         technique="contract-based deductive verification: process contracts over channel histories, WP/VC generation over go/ssa + SMT"),
     "C02": dict(
         level="other",
-        text="Partial: (1) the index-start rewrite is proved to hand duplicate-free id and label lists to the lookups it introduces "
+        text="Partial: (1) the index-start rewrite is proved to use only a filter of the leading run of filters and to hand duplicate-free id and label lists to the lookups it introduces "
              "(dedupStringSlice proved duplicate-free for every input), so an element is not returned once per repetition of its id or "
              "label; it is also proved panic-free (C06). (2) The load-elision analysis PipelineStepOutputs is proved, for every "
              "statement sequence, to mark the step of every has() statement as loaded; the same clause for hasKey fails and is a "
